@@ -160,6 +160,12 @@ class Case:
         return out
 
 
+def _created_for(spec: Sequence) -> float:
+    """Creation time of a record handed to the authority / additional section: these are written with their TTL as given,
+    whatever their age - so the age is varied (0, one second, a day, years)."""
+    return (0.0, 1000.0, 86400000.0, 123456789012.0)[(len(spec[1]) + int(spec[3])) % 4]
+
+
 def run_case(case: Case, res: Result, props: Sequence[str]) -> None:
     d, exc, inc, outm = lib()
     res.evaluations += 1
@@ -184,17 +190,23 @@ def run_case(case: Case, res: Result, props: Sequence[str]) -> None:
             ttl = spec[3] if now == 0 else int(rec.get_remaining_ttl(now))
             exp_sections[0].append(expected_record(spec, case.multicast, ttl))
         for spec in case.authorities:
-            out.add_authorative_answer(to_lib(spec))
+            out.add_authorative_answer(to_lib(spec, _created_for(spec)))
             exp_sections[1].append(expected_record(spec, case.multicast, spec[3]))
         for spec in case.additionals:
-            out.add_additional_answer(to_lib(spec))
+            out.add_additional_answer(to_lib(spec, _created_for(spec)))
             exp_sections[2].append(expected_record(spec, case.multicast, spec[3]))
         packets = out.packets()
     except exc.NamePartTooLongException:
         res.mon("c01.accept_reject")
         if maxlab <= 63:
-            res.obs("builder_rejected_although_all_labels_le_63")
+            # NamePartTooLongException is the rejection of a name part that is too long: a message whose labels all fit a DNS
+            # label (<= 63 bytes) has nothing to be rejected for, and is owed the round trip
             res.cls("rejected-short")
+            if "C01" in props:
+                res.violation("c01.accept_reject", "rejected_although_all_labels_le_63", "NamePartTooLongException although the longest label has %d bytes" % maxlab,
+                              {}, {"case": case.to_json()})
+            else:
+                res.obs("builder_rejected_although_all_labels_le_63")
         else:
             res.cls("rejected", "64" if maxlab == 64 else ">64")
         return
